@@ -797,8 +797,8 @@ def nontrivial(spec):
 # ==========================================================================================
 
 CAUSE_PRIORITY = ["mixedexpr", "measexpr", "meas", "freeexpr", "free", "tdmexpr", "tdm", "str", "bool", "list", "arr1", "arr2", "arr3", "cplx"]
-CAUSE_NAME = {"mixedexpr": "free+measured-expr", "measexpr": "measured-expr", "meas": "measured-param", "freeexpr": "free-expr",
-              "free": "free-param", "tdmexpr": "tdm-expr", "tdm": "tdm-var", "str": "str-param", "bool": "bool-param",
+CAUSE_NAME = {"mixedexpr": "symbolic-param", "measexpr": "symbolic-param", "meas": "symbolic-param", "freeexpr": "symbolic-param",
+              "free": "symbolic-param", "tdmexpr": "symbolic-param", "tdm": "symbolic-param", "str": "str-param", "bool": "bool-param",
               "list": "list-param", "arr1": "array-1d", "arr2": "array-2d", "arr3": "array-3d", "cplx": "complex-param"}
 
 
@@ -836,8 +836,6 @@ def _pkind(p):
 def spec_cause(spec):
     """Coarse input class of a (minimised) failing spec, from a fixed vocabulary."""
     parts = []
-    if spec.get("tdm"):
-        parts.append("tdm")
     ops_ = [c["op"] for c in spec["cmds"]]
     if "Fouriergate" in ops_:
         parts.append("Fouriergate")
@@ -865,6 +863,12 @@ def spec_cause(spec):
                 parts.append("measure-" + "+".join(sorted(flags)))
             elif any(o.startswith("Measure") for o in ops_):
                 parts.append("measure")
+    if spec.get("tdm"):
+        # TDM-ness is only named when nothing more specific explains the failure
+        if not parts:
+            parts.append("tdm")
+        elif parts[0] in ("measure", "measure-select", "measure-dark", "measure-dark+select"):
+            parts.insert(0, "tdm")
     return "|".join(parts) if parts else "plain"
 
 
@@ -918,7 +922,8 @@ def check_roundtrip(spec, ir, level, with_state=True):
                 a, b = reduced(s0, k), reduced(s1, k)
                 if not (np.all(np.isfinite(s0[0])) and np.all(np.isfinite(s0[1])) and np.max(np.abs(s0[1])) < 1e6):
                     raise FloatingPointError("state not finite / too large to compare")
-                same = np.allclose(a[0], b[0], atol=1e-7, rtol=1e-9) and np.allclose(a[1], b[1], atol=1e-7, rtol=1e-9)
+                atol = 1e-4 if ir == "code" else 1e-5  # homodyne conditioning in the gaussian backend is itself only ~1e-7 reproducible
+                same = np.allclose(a[0], b[0], atol=atol, rtol=1e-9) and np.allclose(a[1], b[1], atol=atol, rtol=1e-9)
                 if v0["n"] > k:
                     # the dropped trailing modes must have been untouched vacuum
                     rest = [i for i in range(v0["n"]) if i >= k]
